@@ -214,6 +214,10 @@ func vcChooseOp(codes []int, nkeys int) vcOp {
 	return o
 }
 
+// vcSymbolicUnlinkOrder is set by harnesses that explore every order in which
+// RemoveAll may unlink the files of a blob directory.
+var vcSymbolicUnlinkOrder bool
+
 type vcConfig struct {
 	reboot bool
 	shard  int
@@ -273,6 +277,10 @@ func vcExecute(cfg vcConfig, prefix []vcOp, last vcOp, restart bool) *vcScenario
 		postOK, _ = m.clone().apply(last)
 	}
 	ranOK := false
+	if vcSymbolicUnlinkOrder {
+		// directory listing order (and so RemoveAll's unlink order) is a decision
+		verif.Option("map_order_symbolic", 1)
+	}
 	sc.crashed = verif.CrashScope(func() {
 		if restart {
 			_, err := vcNewStore(cfg)
@@ -282,6 +290,7 @@ func vcExecute(cfg vcConfig, prefix []vcOp, last vcOp, restart bool) *vcScenario
 		}
 		ranOK = vcRun(s, last)
 	})
+	verif.Option("map_order_symbolic", 0)
 	verif.Assume(willCrash == sc.crashed)
 	if !sc.crashed {
 		verif.Assert("last-op-agrees-with-model", ranOK == postOK)
@@ -371,6 +380,22 @@ func (sc *vcScenario) knownFindingA() bool {
 		return !pre.present
 	case vcDelete:
 		return pre.present && !pre.complete
+	}
+	return false
+}
+
+// knownFindingB: a crash inside the RemoveAll of a complete blob directory
+// (Delete, or eviction by a Create) that unlinks the data file before another
+// file of that directory. FINDINGS.md F3; VerifFindingCrashHalfRemovedBlobDir.
+// Only reachable when the unlink order is explored (data sorts last).
+func (sc *vcScenario) knownFindingB() bool {
+	if !sc.crashed || sc.restart || !vcSymbolicUnlinkOrder {
+		return false
+	}
+	for _, k := range sc.touched {
+		if sc.pre.blobs[k].complete && !sc.post.blobs[k].present {
+			return true
+		}
 	}
 	return false
 }
